@@ -163,6 +163,10 @@ func checkC17(c *Ctx) {
 		c.Fail("C17-R1", "handler-init", newFn.Pos(), "unresolved", "New stores no Handler fields")
 	}
 	// other writers of the Handler time fields outside New and the converters are covered by C06-S2
+	// R4: beyond the quantised week state, a reported Glonass time depends on the timestamp only
+	// (no special case that re-bases it on the handler's initial day state)
+	ruleGlonassResultShape(c, "C17-R4")
+	c.MinInstances("C17-R4", 1)
 	c.MinInstances("C17-R1", 5)
 	c.MinInstances("C17-R2", 2)
 	c.MinInstances("C17-R3", 4)
